@@ -13,7 +13,7 @@ const char *verif_property_id = "C18";
 const char *verif_rule =
     "tape -> scenario from the catalogue {context + endpoint + resources set-up and tear-down; GET request/response (CON, NON); PUT with payload; Block1 upload; Block2 download; "
     "observe register + notifications + cancel + resource deletion; async separate response; OSCORE exchange; URI / optlist helpers; .well-known/core with attributes; TCP session with "
-    "CSM and request; cache key / cache entry; context created with its listening address}, scenario parameters (sizes, token lengths, option counts) and the index k (and optionally a second index k2 > k) of the request to "
+    "CSM and request; cache key / cache entry; context created with its listening address; Block1 upload by a scripted peer that sends no Size1}, scenario parameters (sizes, token lengths, option counts) and the index k (and optionally a second index k2 > k) of the request to "
     "coap_malloc_type()/coap_realloc_type() that returns NULL; the enumeration tier walks every k of every scenario with default parameters. Client and server are both libcoap, so the "
     "failing allocation hits whichever side performs it. Oracle: no sanitizer report, failed assertion or abort and the case returns; the harness follows the documented ownership rules "
     "(a PDU given to coap_send() is never touched again, other objects are released by their owner); after all contexts are freed the allocation table is empty, nothing was released "
@@ -148,7 +148,7 @@ bool request(Fx &f, coap_pdu_type_t type, coap_pdu_code_t code, const char *path
   return coap_send(f.session, pdu) != COAP_INVALID_MID;
 }
 
-const char *SC_NAMES[] = {"setup-teardown", "get-con", "get-non", "put-payload", "block1-upload", "block2-download", "observe", "async", "oscore", "uri-helpers", "well-known-core", "tcp", "cache", "context-with-listen-address"};
+const char *SC_NAMES[] = {"setup-teardown", "get-con", "get-non", "put-payload", "block1-upload", "block2-download", "observe", "async", "oscore", "uri-helpers", "well-known-core", "tcp", "cache", "context-with-listen-address", "block1-from-peer-without-size1"};
 const unsigned NSC = sizeof SC_NAMES / sizeof SC_NAMES[0];
 
 std::string oscore_conf(bool server) {
@@ -278,6 +278,33 @@ void run_scenario(unsigned sc, Tape &t, Fx &f) {
     SRV.to_coap(&la);
     f.sctx = coap_new_context(&la);
     if (f.sctx) f.w.add_context(f.sctx);
+    break;
+  }
+  case 14: {
+    // a peer that is not libcoap uploads a body in Block1 messages without announcing its size (Size1 is optional): the server has to
+    // enlarge the body it re-assembles with every block
+    if (!setup(f, COAP_PROTO_UDP, COAP_BLOCK_USE_LIBCOAP | COAP_BLOCK_SINGLE_BODY, nullptr, nullptr)) break;
+    Peer *peer = f.w.add_peer(Addr::v4(10, 0, 3, 1, 40001));
+    unsigned nblocks = 3 + (unsigned)(token.size() % 3);
+    auto block = [&](unsigned num) {
+      ref::Msg m;
+      m.type = 0; m.code = 3; m.mid = (uint16_t)(0x3100 + num); m.token = {0x51, (uint8_t)num};
+      m.opts.push_back(ref::Opt{11, {'p'}});
+      m.opts.push_back(ref::Opt{27, simh::uint_opt(num << 4 | (num + 1 < nblocks ? 8 : 0) | 2)});   // 64-byte blocks
+      m.payload.assign(num + 1 < nblocks ? 64 : 40, (uint8_t)('a' + num));
+      return ref::encode(m, ref::F_UDP);
+    };
+    peer->on_rx = [&, nblocks](World &ww, Peer &p, const Datagram &d) {
+      ref::Msg r;
+      if (!simh::parse(d.data, &r) || r.code != 0x5f) return;   // 2.31 Continue -> next block; anything else ends the upload
+      const ref::Opt *b1 = simh::find_opt(r, 27);
+      if (!b1) return;
+      unsigned next = (simh::opt_uint(b1->val) >> 4) + 1;
+      if (next < nblocks) ww.peer_send(&p, d.src, block(next));
+    };
+    f.w.peer_send(peer, SRV, block(0));
+    f.w.run(f.w.now + 60000, 40000);
+    peer->on_rx = nullptr;
     break;
   }
   default: {
